@@ -463,6 +463,23 @@ example : nc4.leaky = false ∧ h5.leaky = false ∧
     (run nc4 (fun _ => iota [4]) { heap := [AState.disk ⟨0, 0⟩ [4]], log := [], handles := 0 }
       [Op.subspace 0 [.list [0, 9]], .array 0]).2 = [.raised .indexError, .values [4] [0, 1, 2, 3]] := by decide
 
+/-- **Every dataset that `cfdm.read` opens is closed when it returns or raises**: the parent, every
+external file that is scanned (whether it holds all, some or none of the wanted external
+variables, and however many are given), the flattened copy and temporary file of a grouped parent —
+for every dataset, every role (also the ones the reader realises), and wherever the read fails. -/
+theorem C12_read_handles {b : Backend} (hb : b.leaky = false) (st : Store α) (w : World α) (p : ReadPlan)
+    (vs : List VarDesc) : (readFilePlan b st w p vs).handles = w.handles := by
+  unfold readFilePlan
+  simp only
+  rw [readFold_handles hb st, ← opened_eq_registered]
+  simp
+
+/-- Non-vacuity: a grouped parent read with three external files (useful, useless, useful) that
+raises after the first of its two variables: 6 datasets were open, none remains. -/
+example : (readFilePlan nc4 (fun _ => iota [2]) { heap := [], log := [], handles := 0 }
+    ⟨[true, false, true], true, some 1⟩ [⟨⟨0, 0⟩, [2], .data⟩, ⟨⟨0, 1⟩, [], .scalarCoord⟩]).handles = 0 ∧
+    (List.foldl scanExternal (openParent true) [true, false, true]).opened = 6 := by decide
+
 /-! ### What comes off the disk (below `__getitem__`) -/
 
 /-- The first access that `netcdf_indexer._index` makes to the *variable* asks for a superset of the
